@@ -2,7 +2,7 @@
 (* C26, C27, C28: executions of the real Server with response rate limiting on, against Rrl.tla.
 
    Sequential sessions (C26, C27):  Reset{rate (noerror/nxdomain/error), window, slip, size, p4, p6},
-   Shift{secs} (every bucket's last_refill moved into the past: simulated idle time),
+   Shift{secs, micros} (every bucket's last_refill moved into the past: simulated idle time),
    Req{transport, src, req, out, resp, tcp (the unlimited TCP answer to the same request), stream,
        t0, t1 (harness clock around the call, microseconds since session start), hook: the events the
        limiter emitted while holding the bucket lock}.
@@ -41,8 +41,9 @@ StepReq(cfg, shift, table, names, r) ==
       dest == Dest(r.src, cfg.p4, cfg.p6)
       cat == Category(RcodeOf(r.direct))                 \* the category of the response this request produces
       rate == RateFor(cfg, cat)
-      s0 == shift + r.t0 \div 1000000   u0 == r.t0 % 1000000
-      s1 == shift + r.t1 \div 1000000   u1 == r.t1 % 1000000
+      \* harness clock + accumulated shift, as (seconds, microseconds); shift = <<seconds, microseconds>>
+      s0 == shift[1] + (r.t0 + shift[2]) \div 1000000   u0 == (r.t0 + shift[2]) % 1000000
+      s1 == shift[1] + (r.t1 + shift[2]) \div 1000000   u1 == (r.t1 + shift[2]) % 1000000
       key == <<h.ipv6, h.d0, h.d1, h.d2, h.d3, h.d4, h.d5, h.d6, h.d7, h.cat, h.qhash>>
       old == IF h.idx \in DOMAIN table THEN table[h.idx] ELSE [key |-> <<>>]
       hit == old.key = key
@@ -99,17 +100,17 @@ BurstOk(r) ==
 
 VARIABLES l, cfg, shift, table, names, skipping, bad, nbad
 vars == <<l, cfg, shift, table, names, skipping, bad, nbad>>
-Init == /\ l = 1 /\ cfg = [window |-> 1] /\ shift = 0 /\ table = EmptyFn /\ names = EmptyFn /\ skipping = FALSE
+Init == /\ l = 1 /\ cfg = [window |-> 1] /\ shift = <<0, 0>> /\ table = EmptyFn /\ names = EmptyFn /\ skipping = FALSE
         /\ bad = <<>> /\ nbad = 0
 Note(f) == /\ nbad' = IF f = {} THEN nbad ELSE nbad + 1
            /\ bad' = IF f = {} \/ Len(bad) >= 300 THEN bad ELSE Append(bad, <<l, f>>)
 Next ==
   /\ l <= Len(Rec) /\ l' = l + 1
   /\ LET r == Rec[l] IN
-     IF r.ev = "Reset" THEN cfg' = r /\ shift' = 0 /\ table' = EmptyFn /\ names' = EmptyFn /\ skipping' = FALSE /\ UNCHANGED <<bad, nbad>>
+     IF r.ev = "Reset" THEN cfg' = r /\ shift' = <<0, 0>> /\ table' = EmptyFn /\ names' = EmptyFn /\ skipping' = FALSE /\ UNCHANGED <<bad, nbad>>
      ELSE IF r.ev = "Burst" THEN Note(IF BurstOk(r) THEN {} ELSE {"C28"}) /\ UNCHANGED <<cfg, shift, table, names, skipping>>
      ELSE IF skipping THEN UNCHANGED <<cfg, shift, table, names, skipping, bad, nbad>>      \* after a rejected request the table is unknown until the next Reset
-     ELSE IF r.ev = "Shift" THEN shift' = shift + r.secs /\ UNCHANGED <<cfg, table, names, skipping, bad, nbad>>
+     ELSE IF r.ev = "Shift" THEN shift' = <<shift[1] + r.secs + (shift[2] + r.micros) \div 1000000, (shift[2] + r.micros) % 1000000>> /\ UNCHANGED <<cfg, table, names, skipping, bad, nbad>>
      ELSE LET s == StepReq(cfg, shift, table, names, r) IN
           /\ Note(s.bad) /\ table' = s.table /\ names' = s.names /\ skipping' = (s.bad # {})
           /\ UNCHANGED <<cfg, shift>>
